@@ -10,10 +10,13 @@ import (
 	"strings"
 
 	"storj.io/drpc"
+	"storj.io/drpc/drpcconn"
+	"storj.io/drpc/drpcserver"
 
 	"verif/engine/sched"
 	"verif/engine/vs"
 	"verif/harness/enc"
+	"verif/harness/fakenet"
 	"verif/harness/refwire"
 	"verif/harness/tr"
 	"verif/harness/wl"
@@ -378,6 +381,107 @@ func verify(env *wl.Env, sp spec) string {
 	return ""
 }
 
+// serveScenario: Server.Serve over a listener that has nconn connections ready at once; every
+// client streams its own tagged messages and half-closes; the handler echoes. Each client must get
+// back exactly its own messages, in order, then end-of-stream.
+type echoAll struct{}
+
+func (echoAll) HandleRPC(stream drpc.Stream, rpc string) error {
+	for {
+		var in []byte
+		if err := stream.MsgRecv(&in, enc.Bytes{}); err != nil {
+			if err == io.EOF {
+				return nil
+			}
+			return err
+		}
+		if err := stream.MsgSend(&in, enc.Bytes{}); err != nil {
+			return err
+		}
+	}
+}
+
+func serveScenario(nconn int) *mc.Scenario {
+	name := fmt.Sprintf("deliver-through-Serve[%d connections ready at once, each client streams 2 tagged messages and half-closes]", nconn)
+	type res struct {
+		got  [][]byte
+		err  error
+		done bool
+	}
+	body := func() {
+		lis := &fakenet.Listener{}
+		srv := drpcserver.New(echoAll{})
+		ctx, cancel := context.WithCancel(context.Background())
+		rs := make([]*res, nconn)
+		sched.Cur().State()["serve-results"] = rs
+		var conns []*drpcconn.Conn
+		for i := 0; i < nconn; i++ {
+			c, s := tr.New(fmt.Sprintf("cli%d", i), fmt.Sprintf("srv%d", i), tr.Options{Cap: -1})
+			lis.Push(fakenet.Conn{End: s})
+			conns = append(conns, drpcconn.New(c))
+			rs[i] = &res{}
+		}
+		vs.Go("serve", func() { _ = srv.Serve(ctx, lis) })
+		for i := 0; i < nconn; i++ {
+			i := i
+			vs.Go(fmt.Sprintf("client%d", i), func() {
+				r := rs[i]
+				defer func() { r.done = true }()
+				st, err := conns[i].NewStream(context.Background(), "/echo", enc.Bytes{})
+				if err != nil {
+					r.err = err
+					return
+				}
+				for k := 0; k < 2; k++ {
+					out := enc.Payload(byte('A'+i), 0, byte(k), enc.MinPayload+k)
+					if err := st.MsgSend(&out, enc.Bytes{}); err != nil {
+						r.err = err
+						return
+					}
+				}
+				if err := st.CloseSend(); err != nil {
+					r.err = err
+					return
+				}
+				for {
+					var in []byte
+					if err := st.MsgRecv(&in, enc.Bytes{}); err != nil {
+						r.err = err
+						return
+					}
+					r.got = append(r.got, in)
+				}
+			})
+		}
+		sched.Quiesce()
+		sched.Freeze()
+		wl.Cancel(cancel)
+		for _, c := range conns {
+			_ = c.Close()
+		}
+		sched.Quiesce()
+	}
+	check := func(e *sched.Exec) string {
+		if len(e.Panics) > 0 {
+			return "panic: " + e.Panics[0]
+		}
+		rs, _ := e.State()["serve-results"].([]*res)
+		for i, r := range rs {
+			if !r.done || r.err != io.EOF || len(r.got) != 2 {
+				return fmt.Sprintf("client %d of a server with %d connections: sent 2 messages and half-closed, got %d back, ended with %v (returned=%v)", i, len(rs), len(r.got), r.err, r.done)
+			}
+			for k, m := range r.got {
+				t, _, q, verr := enc.Verify(m)
+				if verr != nil || t != byte('A'+i) || int(q) != k {
+					return fmt.Sprintf("client %d received a message that is not its own message %d (tag %c seq %d, verify: %v)", i, k, t, q, verr)
+				}
+			}
+		}
+		return ""
+	}
+	return &mc.Scenario{Name: name, Body: body, Check: check, Model: sched.Deviation, NoCache: true}
+}
+
 func basePlans(tier string) []mc.Plan {
 	var ps []mc.Plan
 	add := func(cfg wl.Config, sp spec, bounds ...int) {
@@ -448,6 +552,8 @@ func basePlans(tier string) []mc.Plan {
 				add(cfg, spec{dir: "c2s", senders: [][]int{{3, 1, 3}}, receivers: 1, halfClose: true, disturb: "hangup"}, 0, 1)
 			}
 		}
+		// several connections ready at once on a Server.Serve
+		ps = append(ps, mc.Plan{Scen: serveScenario(2), Bounds: []int{0, 1}}, mc.Plan{Scen: serveScenario(3), Bounds: []int{0}})
 		// cold start: the first message races the managers' own start-up
 		for _, cfg := range []wl.Config{{Pipe: tr.Options{Cap: -1}, Cold: true}, {Pipe: tr.Options{Cap: -1}, SplitSize: 2, WriterBuf: 1, Cold: true}} {
 			for _, dir := range []string{"c2s", "s2c"} {
